@@ -10,6 +10,7 @@ query and generate the body of the `FETCH` response IMAP message.
 #
 import email.utils
 import logging
+import re
 from email.header import Header
 from email.message import EmailMessage, Message
 from enum import StrEnum
@@ -52,6 +53,11 @@ def header_or_nil(msg: Message, field: str) -> bytes:
     it returns "NIL"
     """
     return encode_header(msg[field]) if field in msg else b"NIL"
+
+
+# A header field name that can be sent as it is (an atom, without `]`)
+#
+_hdr_fld_atom_re = re.compile(r'[^\(\)\{ \000-\037\177%\*"\\\]]+')
 
 
 ############################################################################
@@ -246,9 +252,16 @@ class FetchAtt:
                     # 'header.<fields<.not>> (header_list)' section and we need
                     # convert that to a proper string for our FETCH response.
                     #
+                    # NOTE: A field name the client wrote as a string is
+                    #       sent back as a string (it may hold a space, a
+                    #       quote, a parenthesis..)
+                    #
                     if isinstance(s, (list, tuple)):
                         sect = str(s[0]).upper()
-                        paren = " ".join(x for x in s[1])
+                        paren = " ".join(
+                            x if _hdr_fld_atom_re.fullmatch(x) else quote_string(x)
+                            for x in s[1]
+                        )
                         sects.append(f"{sect} ({paren})")
                     else:
                         sects.append(str(s).upper())
@@ -696,14 +709,14 @@ class FetchAtt:
 
         params = msg["Content-Disposition"].params  # type: ignore[union-attr]
         if not params:
-            return (f'("{cd}" NIL)').encode("latin-1")
+            return (f"({quote_string(cd)} NIL)").encode("latin-1")
 
         result = []
         for param, value in params.items():
             result.append(
                 f"{quote_string(param.upper())} {quote_string(str(value))}"
             )
-        res = f'("{cd.upper()}" ({" ".join(result)}))'
+        res = f'({quote_string(cd.upper())} ({" ".join(result)}))'
         try:
             return res.encode("latin-1")
         except UnicodeEncodeError:
@@ -768,9 +781,14 @@ class FetchAtt:
             # doing a 'body' not a 'bodystructure' then we have
             # everything we need to return a result.
             #
-            subtype = (msg.get_content_subtype().upper()).encode("latin-1")
+            # NOTE: The types come from the message and are sent as quoted
+            #       strings, so they are escaped like any other string.
+            #
+            subtype = quote_string(msg.get_content_subtype().upper()).encode(
+                "latin-1", errors="replace"
+            )
             if not self.ext_data:
-                res = b"(" + b"".join(sub_parts) + b' "' + subtype + b'")'
+                res = b"(" + b"".join(sub_parts) + b" " + subtype + b")"
                 return res
 
             # Get the extension data and add it to our response.
@@ -782,9 +800,9 @@ class FetchAtt:
             res = (
                 b"("
                 + b"".join(sub_parts)
-                + b' "'
+                + b" "
                 + subtype
-                + b'" '
+                + b" "
                 + b" ".join(ext_data)
                 + b")"
             )
@@ -828,8 +846,12 @@ class FetchAtt:
         #
         maintype = msg.get_content_maintype()
         msg_subtype = msg.get_content_subtype()
-        result.append((f'"{maintype.upper()}"').encode("latin-1"))
-        result.append((f'"{msg_subtype.upper()}"').encode("latin-1"))
+        result.append(
+            quote_string(maintype.upper()).encode("latin-1", errors="replace")
+        )
+        result.append(
+            quote_string(msg_subtype.upper()).encode("latin-1", errors="replace")
+        )
 
         result.append(self.body_parameters(msg))  # type: ignore[arg-type]
 
